@@ -10,7 +10,7 @@
    search on a finite map.  [observe] keeps the valid part of every returned column. *)
 From Coq Require Import List Arith Bool QArith Qcanon Lia.
 From PV Require Import C05.Model C05.Spec C05.ProofsNum C05.ProofsSpec C05.ProofsModel
-  C05.ProofsSearch C05.Proofs.
+  C05.ProofsSearch C05.ProofsMass C05.ProofsExact C05.Proofs.
 Import ListNotations.
 Local Open Scope nat_scope.
 
@@ -33,6 +33,34 @@ Theorem c05_pbs_le_exact : forall V K frames E B p nb b, nonneg_frames frames E 
   (0 <= nb + b)%Qc /\ (nb + b <= ctc_mass V frames E p)%Qc.
 Proof. exact pbs_le_exact. Qed.
 Print Assumptions c05_pbs_le_exact.
+
+(* the same two clauses for the VECTORISED MODEL of the code (beam slots, prefix matrix, merge of
+   an extension into an identical existing prefix, -inf slots, per-element freezing, fusion):
+   every returned mass is at most the total mass of the alignments of the element's own valid
+   frames that collapse to the returned prefix, whatever was pruned ... *)
+Theorem c05_model_mass_le_exact : forall V width fus lm len frames choices, 1 <= V -> 1 <= width ->
+  choices_ok V width fus lm 0%Qc len 0 frames choices init_beam = true ->
+  let L := firstn len frames in
+  nonneg_frames L (fused_score fus lm L) ->
+  let '(P, Ls, Ps) := observe (search V width fus lm len frames choices) in
+  forall i q, nth i Ps NegInf = Fin q ->
+    (0 <= q)%Qc /\ (q <= ctc_mass V L (fused_score fus lm L) (nth i P []))%Qc.
+Proof. exact search_mass_le. Qed.
+Print Assumptions c05_model_mass_le_exact.
+
+(* ... and when no live candidate was ever left out ([nothing_pruned]) every returned mass IS
+   that alignment mass and every blank-free prefix no longer than the input is returned *)
+Theorem c05_model_exact_when_unpruned : forall V width fus lm len frames choices, 1 <= V -> 1 <= width ->
+  choices_ok V width fus lm 0%Qc len 0 frames choices init_beam = true ->
+  nothing_pruned V width fus lm len 0 frames choices init_beam = true ->
+  let L := firstn len frames in
+  let E := fused_score fus lm L in
+  let '(P, Ls, Ps) := observe (search V width fus lm len frames choices) in
+  (forall i q, nth i Ps NegInf = Fin q -> q = ctc_mass V L E (nth i P [])) /\
+  (forall p, Forall (fun x => x < V) p -> length p <= length L ->
+     exists i, i < width /\ nth i P [] = p /\ nth i Ps NegInf = Fin (ctc_mass V L E p)).
+Proof. exact search_mass_exact. Qed.
+Print Assumptions c05_model_exact_when_unpruned.
 
 (* the CTC recursion itself, on the alignment sums (what both theorems above rest on) *)
 Theorem c05_alignment_mass_recursion : forall V frames E n p, Forall (fun x => x < V) p ->
@@ -113,3 +141,39 @@ Theorem c05_element_independent_of_padding_frames : forall V width fus lm len fr
   = observe (search V width fus lm len (firstn len frames) choices).
 Proof. exact element_independent. Qed.
 Print Assumptions c05_element_independent_of_padding_frames.
+
+(* ---- non-vacuity: concrete inputs meeting the hypotheses --------------------------------------- *)
+
+(* the frames of tests/test_decoding.py::test_ctc_prefix_search, width 2: legitimate topk answers
+   exist, something IS pruned, an extension IS merged, and the model returns the pinned result *)
+Example c05_pruned_nonvacuous :
+  choices_ok 2 2 NoLM no_lm 0%Qc 3 0 ex_frames (ex_choices 2 3) init_beam = true /\
+  nothing_pruned 2 2 NoLM no_lm 3 0 ex_frames (ex_choices 2 3) init_beam = false /\
+  (let '(P, Ls, Ps) := observe (search 2 2 NoLM no_lm 3 ex_frames (ex_choices 2 3)) in
+   (P, Ls, map show_mass Ps)) = ([[0; 1]; [0]], [2; 1], [Some (5 # 24)%Q; Some (1 # 6)%Q]).
+Proof. exact nonvacuous_pruned. Qed.
+
+(* width 9, an element of length 2 in a batch of 3 frames: nothing pruned, zero-mass prefixes
+   and two invalid slots behind the real ones *)
+Example c05_unpruned_nonvacuous :
+  choices_ok 2 9 NoLM no_lm 0%Qc 2 0 ex_frames (ex_choices 9 2) init_beam = true /\
+  nothing_pruned 2 9 NoLM no_lm 2 0 ex_frames (ex_choices 9 2) init_beam = true /\
+  (let '(P, Ls, Ps) := observe (search 2 9 NoLM no_lm 2 ex_frames (ex_choices 9 2)) in
+   (P, map show_mass Ps))
+  = ([[0]; [1]; [1; 0]; [0; 1]; []; [0; 0]; [1; 1]; [0]; [1]],
+     [Some (17 # 36)%Q; Some (1 # 4)%Q; Some (1 # 9)%Q; Some (1 # 12)%Q; Some (1 # 12)%Q;
+      Some 0%Q; Some 0%Q; None; None]).
+Proof. exact nonvacuous_unpruned. Qed.
+
+Example c05_nonneg_nonvacuous : forall len,
+  nonneg_frames (firstn len ex_frames) (fused_score NoLM no_lm (firstn len ex_frames)).
+Proof. exact nonvacuous_nonneg. Qed.
+
+(* the map-based recursion: a beam reached with a real pruning step, and an unpruned one *)
+Example c05_pbs_reach_nonvacuous :
+  pbs_reach 1 1 ex1 (plain_score ex1) 1 [new_entry 1 ex1 (plain_score ex1) 0 pbs_init [0]].
+Proof. exact nonvacuous_pbs_pruned. Qed.
+
+Example c05_pbs_full_nonvacuous :
+  pbs_full 1 ex1 (plain_score ex1) 1 (pbs_cands 1 ex1 (plain_score ex1) 0 pbs_init).
+Proof. exact nonvacuous_pbs_full. Qed.
